@@ -139,6 +139,39 @@ def build_pad(s):
     return box, {'a': a, 'e': e}, {'o': o}, {}
 
 
+class Handshake(py4hw.Logic):
+    """behavioural block whose state flags are initialised with bool literals in the constructor"""
+    def __init__(self, parent, name, req, ack, cnt):
+        super().__init__(parent, name)
+        self.req = self.addIn('req', req)
+        self.ack = self.addOut('ack', ack)
+        self.cnt = self.addOut('cnt', cnt)
+        self.busy = False
+        self.done = True
+        self.n = 0
+
+    def clock(self):
+        if self.busy:
+            self.n = self.n + 1
+            if self.n == 3:
+                self.busy = False
+                self.done = True
+                self.ack.prepare(1)
+        elif self.req.get():
+            self.busy = True
+            self.done = False
+            self.n = 0
+            self.ack.prepare(0)
+        self.cnt.prepare(self.n)
+
+
+def d_flags(s):
+    req, ack, cnt, q = W(s, 'req', 1), W(s, 'ack', 1), W(s, 'cnt', 2), W(s, 'q', 2)
+    Handshake(s, 'hs', req, ack, cnt)
+    Reg(s, 'r', cnt, q)
+    return {'ins': {'req': req}, 'outs': {'ack': ack, 'q': q}}
+
+
 def d_twin(mod):
     def build(s):
         import importlib
@@ -152,6 +185,7 @@ def d_twin(mod):
 
 DESIGNS = {'structural': d_struct, 'hierarchy': d_hier, 'behavioural leaves': d_behav, 'constructor constants k=3': d_const(3),
            'constructor constants k=5': d_const(5),
+           'behavioural block with bool-initialised state flags': d_flags,
            'same-named behavioural classes, module A': d_twin('a'), 'same-named behavioural classes, module B': d_twin('b')}
 
 
@@ -203,7 +237,9 @@ def isolation_task(p, cfg, rec):
 def freeze(v, depth=0):
     """value of an attribute of a block as generation must leave it: numbers and strings by value, wires and blocks by
     identity, lists/tuples/dicts element-wise (e.g. the bit list of BitsMSBF)"""
-    if isinstance(v, (int, str, float, bool, type(None))):
+    if isinstance(v, bool):
+        return ('bool', v)
+    if isinstance(v, (int, str, float, type(None))):
         return v
     if depth < 3 and isinstance(v, (list, tuple)):
         return [freeze(e, depth + 1) for e in v]
@@ -408,8 +444,9 @@ def seq_task(p, cfg, rec):
             p.structural('a refused generation leaves the object graph and block attributes unchanged', graph_snapshot(s) == g0)
             return
         p.structural('reference generation completes', False, detail={'exception': repr(e)})
+    graph_changed = graph_snapshot(s) != g0
     p.structural('object graph and block attributes (ports, children order, wires, parameters, clock drivers, lists held by blocks) unchanged by the reference request',
-                 graph_snapshot(s) == g0)
+                 not graph_changed)
     for k, kind in enumerate(seq):
         if kind.isdigit():
             with quiet():
@@ -423,7 +460,9 @@ def seq_task(p, cfg, rec):
         except Exception as e:
             p.structural('request %d (%s) completes' % (k, kind), False, detail={'exception': repr(e)})
             continue
-        p.structural('object graph and block attributes unchanged by request %d (%s)' % (k, kind), graph_snapshot(s) == g0)
+        same_graph = graph_snapshot(s) == g0
+        graph_changed = graph_changed or not same_graph
+        p.structural('object graph and block attributes unchanged by request %d (%s)' % (k, kind), same_graph)
         if 'L' in gens and kind != 'L':
             p.structural('the list a caller supplied earlier is left alone by request %d (%s), which was not given it' % (k, kind),
                          gens['L'] == gens['L_snapshot'], detail={'list after the request that filled it': gens['L_snapshot'], 'list now': list(gens['L'])})
@@ -465,8 +504,13 @@ def seq_task(p, cfg, rec):
         b, _ = step_terms(s2, ins2, values)
         diff = {k: [a[k], b.get(k)] for k in a if a[k] != b.get(k)}
         return {'differences': dict(list(diff.items())[:6])} if diff else None
-    p.prove('one clock step from any state gives the same values before and after generation (%d cells)' % len(before),
-            z3.Or(*conds) if conds else z3.BoolVal(False), inputs=vars_, replay=replay)
+    if graph_changed:
+        # already reported above; the state variables of the circuit are no longer the ones the first step was taken from
+        # (e.g. a flag that changed its type), so the two symbolic steps are not comparable cell by cell
+        p.note('%s: step comparison skipped, the object graph / block attributes were changed by a request (reported)' % p.config)
+    else:
+        p.prove('one clock step from any state gives the same values before and after generation (%d cells)' % len(before),
+                z3.Or(*conds) if conds else z3.BoolVal(False), inputs=vars_, replay=replay)
     p.res['states'] += 1
     for k, kind, t in texts[1:]:
         equivalent_texts(p, 'text of request %d (%s) vs request %d (%s)' % (k, kind, texts[0][0], texts[0][1]), texts[0][2], t)
